@@ -48,15 +48,16 @@ def edges_matching(body, origin, rx):
     return out
 
 
-def run(ctx, prog):
-    ctx.not_decided = ['equality of recovered and live state over histories × configurations',
-                       'bit-exact idempotence of normalisation (floating point)']
-    rec = ctx.body('C02.R1', 'HnswBackend::recover_with_hnsw_params_and_mode')
+def seq_continuation(ctx, prog, rid):
+    """sequence continuation after recovery (C02.R1; shared with C01.R8: a write acknowledged after a restart must not be numbered at or
+    below the snapshot's sequence, or the next restart skips it as covered)."""
+    rec = ctx.body(rid, 'HnswBackend::recover_with_hnsw_params_and_mode')
+    if rec is None:
+        return
     ov = flow.Origin(rec, stop_at_vars=True)
     of = flow.Origin(rec)
-
     # ------------------------------------------------------------------ R1 sequence continuation
-    ctx.rule('C02.R1', 'sequence continuation: next_wal_seq of the recovered backend = max_wal_seq + 1; max_wal_seq takes '
+    ctx.rule(rid, 'sequence continuation: next_wal_seq of the recovered backend = max_wal_seq + 1; max_wal_seq takes '
                        'snapshot.last_wal_seq and every entry.seq_no, the latter before the replay-skip decision (skipped '
                        'entries still raise the maximum)')
     agg = None
@@ -66,31 +67,42 @@ def run(ctx, prog):
             if rv and rv['k'] == 'agg' and rv.get('adt', '').endswith('PersistenceState') and 'next_wal_seq' in (rv.get('fields') or []):
                 agg = rv
     if agg is None:
-        ctx.missing('C02.R1', 'recovery: PersistenceState{next_wal_seq: ..}')
+        ctx.missing(rid, 'recovery: PersistenceState{next_wal_seq: ..}')
     else:
         r = flow.render(ov.of_operand(agg['ops'][agg['fields'].index('next_wal_seq')]))
         ok = bool(re.search(r'Atomic::new\((num::saturating_add\(var:max_wal_seq, 1\)|\(var:max_wal_seq Add(WithOverflow)? 1\)(\.0)?|num::wrapping_add\(var:max_wal_seq, 1\))\)', r))
-        ctx.inst('C02.R1', rec.short, 'next_wal_seq = max_wal_seq + 1', ok, 'next_wal_seq: %s' % r)
+        ctx.inst(rid, rec.short, 'next_wal_seq = max_wal_seq + 1', ok, 'next_wal_seq: %s' % r)
         ml = rec.var_local('max_wal_seq')
         if not ml:
-            ctx.missing('C02.R1', 'recovery: variable max_wal_seq')
+            ctx.missing(rid, 'recovery: variable max_wal_seq')
         else:
             full = flow.render(of.of_local(ml[0]))
-            ctx.inst('C02.R1', rec.short, 'max_wal_seq reaches from snapshot.last_wal_seq and entry.seq_no',
+            ctx.inst(rid, rec.short, 'max_wal_seq reaches from snapshot.last_wal_seq and entry.seq_no',
                      'Snapshot.last_wal_seq' in full and 'WalEntry.seq_no' in full, 'origins: %s' % full[:400])
             raise_sw = edges_matching(rec, ov, r'^cmp\[\+ var:entry→WalEntry\.seq_no - var:max_wal_seq >= 1\]$')
             skip_sw = edges_matching(rec, ov, SEQ_COVERED)
             if not raise_sw or not skip_sw:
-                ctx.missing('C02.R1', 'recovery: guard entry.seq_no > max_wal_seq and the replay-skip guard')
+                ctx.missing(rid, 'recovery: guard entry.seq_no > max_wal_seq and the replay-skip guard')
             else:
                 rs = raise_sw[0][0]
                 ok = all(rec.dominates(rs, s[0]) for s in skip_sw)
                 # the raising assignment is on the true edge
                 asg = [d for d in rec.defs.get(ml[0], []) if d[2] == 'assign' and 'WalEntry.seq_no' in flow.render(ov.of_rvalue(d[3]['rv'], 0, frozenset()))]
                 ok2 = bool(asg) and all(a[0] in (rec.reach([raise_sw[0][1]]) | {raise_sw[0][1]}) for a in asg)
-                ctx.inst('C02.R1', rec.short, 'maximum raised before the skip decision', ok and ok2,
+                ctx.inst(rid, rec.short, 'maximum raised before the skip decision', ok and ok2,
                          'raise guard at %s dominates skip guard(s) at %s: %s; assignment on its true edge: %s' % (
                              rec.loc_of(rs), [rec.loc_of(s[0]) for s in skip_sw], ok, ok2))
+
+
+
+def run(ctx, prog):
+    ctx.not_decided = ['equality of recovered and live state over histories × configurations',
+                       'bit-exact idempotence of normalisation (floating point)']
+    rec = ctx.body('C02.R1', 'HnswBackend::recover_with_hnsw_params_and_mode')
+    ov = flow.Origin(rec, stop_at_vars=True)
+    of = flow.Origin(rec)
+
+    seq_continuation(ctx, prog, 'C02.R1')
 
     # ------------------------------------------------------------------ R2 covered predicates
     ctx.rule('C02.R2', '"covered" predicates: every path of the replay loop body that skips an entry (returns to the loop head '
